@@ -28,6 +28,7 @@ type c06Pool struct {
 	base       string
 	// what executed deposit / withdraw requests moved so far (cumulative over the history)
 	reqX, reqY sdk.Int
+	nDep, nWd  int // executed deposit / withdraw requests seen so far
 }
 
 func (m *lMachine) c06Snap() map[string]c06Pool {
@@ -67,6 +68,7 @@ func (m *lMachine) c06Snap() map[string]c06Pool {
 	}
 	for d, p := range out {
 		x, y := sdk.ZeroInt(), sdk.ZeroInt()
+		nd, nw := 0, 0
 		for k, rec := range m.c06Req {
 			if rec[0].(uint64) != p.app || rec[1].(uint64) != p.id {
 				continue
@@ -75,10 +77,13 @@ func (m *lMachine) c06Snap() map[string]c06Pool {
 			dx, dy := coins.AmountOf(p.quote), coins.AmountOf(p.base)
 			if m.c06Neg[k] {
 				dx, dy = dx.Neg(), dy.Neg()
+				nw++
+			} else {
+				nd++
 			}
 			x, y = x.Add(dx), y.Add(dy)
 		}
-		p.reqX, p.reqY = x, y
+		p.reqX, p.reqY, p.nDep, p.nWd = x, y, nd, nw
 		out[d] = p
 	}
 	return out
@@ -101,6 +106,27 @@ func (m *lMachine) c06Check(i int, when string, pre map[string]c06Pool) {
 		m.r.Class("c06:judged")
 		if !b.ps.Equal(a.ps) {
 			m.c06Moves++
+		}
+		// withdrawals only: what left the reserves is at most the withdrawn shares' pro-rata part less the withdrawal
+		// fee. The fee stays in the pool, so the reserves per share rise from one executed withdrawal to the next and
+		// the rate after the last one bounds them all.
+		if fee := m.params(a.app).WithdrawFeeRate; b.nDep == a.nDep && b.nWd > a.nWd && b.ps.LT(a.ps) && fee.IsPositive() {
+			w := new(big.Rat).SetInt(a.ps.Sub(b.ps).BigInt())
+			keep := new(big.Rat).Sub(big.NewRat(1, 1), decRat(fee))
+			slack := big.NewRat(int64(b.nWd-a.nWd)+2, 1)
+			for _, side := range []struct {
+				name     string
+				was, now sdk.Int
+			}{{a.quote, a.rx, b.rx}, {a.base, a.ry, b.ry}} {
+				paid := new(big.Rat).SetInt(side.was.Sub(side.now).BigInt())
+				bound := new(big.Rat).Mul(w, new(big.Rat).SetFrac(side.now.BigInt(), b.ps.BigInt()))
+				bound.Mul(bound, keep).Add(bound, slack)
+				if paid.Cmp(bound) > 0 {
+					m.fail("C06.withdrawal-pays-pro-rata-less-fee", when, "step %d: pool coin %s: %d withdrawals of %s shares in all took %s%s out of the reserve; pro-rata at the rate after them (%s over %s shares) less the %s fee is %s",
+						i, d, b.nWd-a.nWd, a.ps.Sub(b.ps), side.was.Sub(side.now), side.name, side.now, b.ps, fee, bound.FloatString(3))
+				}
+			}
+			m.r.Class("c06:withdrawals-with-fee-judged")
 		}
 		// (rx*ry)/ps^2 after >= before, up to a few units of rounding on the smaller reserve
 		lhs := new(big.Int).Mul(new(big.Int).Mul(b.rx.BigInt(), b.ry.BigInt()), new(big.Int).Mul(a.ps.BigInt(), a.ps.BigInt()))
